@@ -3,7 +3,7 @@
   One request per line on stdin, one reply per line on stdout. See harness/src/proto.rs.
 -/
 import TextwrapModel
-import TextwrapModel.Gen.Tables
+import TextwrapModel.Tables
 open TW
 
 namespace Drv
@@ -86,12 +86,12 @@ def parseMinTable (s : String) : List (List (UInt64 × UInt64 × UInt64) × List
     | _ => ([], [], [])
 
 def cwOf (crude : Bool) (c : Char) : Nat :=
-  if crude then lookupRuns Gen.widthRunsCrude c.toNat 0 else lookupRuns Gen.widthRunsUnicode c.toNat 0
+  if crude then cwCrude c else cwUnicode c
 
 def mkEnv (crude : Bool) (opps : List (Text × List Nat)) : Env :=
   { cw := cwOf crude
-    isAlnum := fun c => lookupRuns Gen.alnumRuns c.toNat 0 = 1
-    isWs := fun c => Gen.wsList.contains c.toNat
+    isAlnum := isAlnumStd
+    isWs := isWsStd
     opps := fun stripped => (opps.lookup stripped).getD [] }
 
 /-- minima oracle: what the real `smawk` returned for this very fragment list (recorded by the
@@ -121,10 +121,10 @@ def parseOpts (s ii si : String) : Opts × Penalties :=
             splitter := .none, alg := .firstFit, lineEnding := .lf }, ⟨0, 0, 0, 0, 0⟩)
 
 def showLineD (d : LineD) : String :=
-  let st := if d.borrowed && d.inBuf then toString d.start else "-"
+  let st := if d.borrowed && d.inBuf && !d.slice.isEmpty then toString d.start else "-"
   s!"{showText d.render}/{if d.borrowed then 1 else 0}/{st}"
 
-def showLines (ls : List Text) : String := ",".intercalate (ls.map showText)
+def showLines (ls : List Text) : String := s!"{ls.length};" ++ ",".intercalate (ls.map showText)
 
 def showOpt {β} (f : β → String) : Option β → String
   | some x => f x
@@ -154,6 +154,31 @@ def checkMinima (pen : Penalties) (lws : List Float) (frs : List (Frag Float)) (
     (List.range j).all fun i => !(cellCost pen lws frs W pre i j < dj)
   (shape, minimal)
 
+
+def showOf {β} : OfResult β → String
+  | .ok ls => s!"ok:{showGroups ls}"
+  | .overflow => "overflow"
+  | .panic => "panic"
+
+/-- `of`: back-track the rows the real `smawk` returned; unless `shapeOnly`, also check the
+    contract on them (shape, minimality against the model's cost closure) and that the model's
+    own naive minima reach the same total cost. -/
+def handleOf (frs lws pen rows : String) (shapeOnly : Bool) : String :=
+  let fr := parseFrags frs
+  let lw := parseFloats lws
+  let p : Penalties := match parseNats pen with
+    | [a, b, c, d, e] => ⟨a, b, c, d, e⟩
+    | _ => ⟨0, 0, 0, 0, 0⟩
+  let rws := parseNats rows
+  let res := showOf (wrapOptimalFitWith (fun (f : Frag Float) => f) p fr lw rws)
+  if shapeOnly then res else
+  let (shape, minimal) := checkMinima p lw fr rws
+  let n := fr.length
+  let W := prefixWidths fr
+  let dReal := ((dpTable p lw fr W (fun j => rws.getD j 0) n).getD n (0, 0)).1
+  let dNaive := (((naiveMinima p lw fr W n).1).getD n (0, 0)).1
+  s!"{res};shape={if shape then 1 else 0};minimal={if minimal then 1 else 0};costeq={if dReal == dNaive then 1 else 0}"
+
 def handle (crude : Bool) (line : String) : String :=
   match line.splitOn "|" with
   | ["dw", t] => toString (displayWidth (cwOf crude) (parseText t))
@@ -173,23 +198,8 @@ def handle (crude : Bool) (line : String) : String :=
     showWords (breakWords (cwOf crude) (limit.toNat?.getD 0) (parseWords ws))
   | ["ff", frs, lws] =>
     showGroups (wrapFirstFit (fun (f : Frag Float) => f) (parseFrags frs) (parseFloats lws))
-  | ["of", frs, lws, pen, rows] =>
-    let fr := parseFrags frs
-    let lw := parseFloats lws
-    let p : Penalties := match parseNats pen with
-      | [a, b, c, d, e] => ⟨a, b, c, d, e⟩
-      | _ => ⟨0, 0, 0, 0, 0⟩
-    let rws := parseNats rows
-    let (shape, minimal) := checkMinima p lw fr rws
-    let res := match wrapOptimalFitWith (fun (f : Frag Float) => f) p fr lw rws with
-      | .ok ls => s!"ok:{showGroups ls}"
-      | .overflow => "overflow"
-      | .panic => "panic"
-    let naive := match wrapOptimalFitNaive (fun (f : Frag Float) => f) p fr lw with
-      | .ok ls => s!"ok:{showGroups ls}"
-      | .overflow => "overflow"
-      | .panic => "panic"
-    s!"{res};shape={if shape then 1 else 0};minimal={if minimal then 1 else 0};naive={naive}"
+  | ["of", frs, lws, pen, rows] => handleOf frs lws pen rows false
+  | ["of", frs, lws, pen, rows, "shapeonly"] => handleOf frs lws pen rows true
   | ["wrap", o, ii, si, t, opps, mins] =>
     let (opts, pen) := parseOpts o ii si
     let env := mkEnv crude (parseOppsTable opps)
